@@ -20,7 +20,7 @@ MS = {0: "inv", 1: "pub", 2: "wpa", 3: "wprec", 4: "rprel", 5: "wprel", 6: "rpco
 
 
 def parse_cfg(words):
-    cfg = dict(proto=4, clean=1, N=20, M=0, manual=0, rof=1, ext=0, ka=60, sup=0)
+    cfg = dict(proto=4, clean=1, N=20, M=0, manual=0, rof=1, ext=0, ka=60, sup=0, cbpub=-1, cbn=0)
     for w in words:
         k, _, v = w.partition("=")
         if k in cfg:
@@ -72,7 +72,17 @@ class RealSession:
             c.on_disconnect = lambda cl, ud, rc: ev.append(self._disc(rc))
             c.on_subscribe = lambda cl, ud, mid, granted: ev.append(f"on_subscribe:{mid}:{granted[0]}")
             c.on_unsubscribe = lambda cl, ud, mid: ev.append(f"on_unsubscribe:{mid}")
-        c.on_publish = lambda cl, ud, mid: ev.append(f"on_publish:{mid}")
+        self.cb_left = cfg.get("cbn", 0)
+
+        def on_publish(cl, ud, mid):
+            ev.append(f"on_publish:{mid}")
+            if cfg.get("cbpub", -1) >= 0 and self.cb_left > 0:
+                # the application publishes from inside on_publish (stream `reentry`, no Lean model)
+                self.cb_left -= 1
+                info = cl.publish("cb/t", b"cb", cfg["cbpub"])
+                self.infos.append(info)
+                ev.append(f"cbpub:{cfg['cbpub']}:{int(info.rc)}:{info.mid}")
+        c.on_publish = on_publish
         c.on_message = self._on_message
         if cfg["ext"]:
             c.on_socket_open = lambda cl, ud, s: ev.append(f"open{raw(s).conn}")
@@ -100,7 +110,7 @@ class RealSession:
         out = ",".join(f"{m.mid}.{MS[int(m.state)]}.{int(bool(m.dup))}" for m in c._out_messages.values())
         inm = ",".join(str(m) for m in c._in_messages.keys())
         q = f"{len(c._out_packet)}.{c._out_packet[0]['pos']}" if c._out_packet else "0.0"
-        infos = ",".join(f"{int(i.rc)}{'+' if i._published else '-'}" for i in self.infos)
+        infos = ",".join(f"{int(i.rc)}{'+' if i._published else '-'}" for i in self.infos if i is not None)
         return (f"st={ST[c._state]} sock={s.conn if s else 0} ww={int(c.want_write())} rw={int(c._registered_write)} "
                 f"infl={c._inflight_messages} out=[{out}] in=[{inm}] q={q} ping={int(c._ping_t > 0)} "
                 f"mid={c._last_mid} proto={int(c._protocol)} infos={infos}")
@@ -168,8 +178,14 @@ class RealSession:
             for so in w.socks:
                 so.inq.clear()
         elif k == "publish":
-            info = c.publish(unhx(t[2]).decode(), unhx(t[3]), int(t[1]), bool(int(t[4])))
-            self.infos.append(info)
+            slot = len(self.infos)
+            self.infos.append(None)       # (a publish made from inside a callback during this call comes after it)
+            try:
+                info = c.publish(unhx(t[2]).decode(), unhx(t[3]), int(t[1]), bool(int(t[4])))
+            except BaseException:
+                del self.infos[slot]
+                raise
+            self.infos[slot] = info
             ev.append(f"ret:{int(info.rc)}:{info.mid}")
         elif k == "subscribe":
             r, mid = c.subscribe(unhx(t[1]).decode(), int(t[2]))
@@ -196,6 +212,9 @@ class RealSession:
             ev.append(f"ret:{int(c.ack(int(t[1]), int(t[2])))}")
         elif k == "raise_on_message":
             self.raise_left = int(t[1])
+        elif k == "setmid":
+            # fast-forward of the id generator: stands for the allocations made in between
+            c._last_mid = int(t[1]) % 65536
         else:
             raise ValueError("bad op " + k)
 
@@ -315,6 +334,12 @@ def _next_op(rng, sh):
         d = rng.choice([0, 0, 500, k // 2])
         sh.pending = ["loop_misc", f"tick {k - d if rng.random() < 0.3 else k}", "loop_misc"] + (["rx pingresp"] if rng.random() < 0.4 else []) + \
                      [f"tick {k}", "loop_misc", "loop_misc"]
+        if rng.random() < 0.5:
+            # ... and a fresh connection right after (a PINGREQ may have been outstanding on the old one)
+            sh.pending += (["rx eof"] if rng.random() < 0.5 else []) + ["reconnect ok", "rx connack 0 0", "loop_misc",
+                                                                       f"tick {rng.choice([500, k // 2, k])}", "loop_misc"]
+            _after_connect(sh, True)
+            sh.connected = True
         return f"tick {k + d}"
     if not sh.sock:
         if r < 0.45:
@@ -354,6 +379,42 @@ def _next_op(rng, sh):
             return f"tick {rng.choice([1000, 10000, 60000])}"
         return "loop_misc"
     # connected
+    if sh.out and rng.random() < 0.02:
+        # the id generator comes round to a packet id that is still in use (65535 allocations later)
+        m = rng.choice(list(sh.out))
+        keep = dict(sh.out)
+        sh.mid = (m - 2) % 65535 + 1
+        # ... and afterwards moves on past every id in use (a QoS 0 publish may legitimately reuse a live id; the
+        # monitors, which tell messages apart by id, are not exercised on that)
+        top = max(sh.out)
+        sh.pending = [_publish(rng, sh, qos=rng.choice([1, 2])), f"setmid {top}"]
+        sh.out.clear()
+        sh.out.update(keep)      # the colliding publish is refused: the old message keeps its id
+        sh.mid = top
+        return f"setmid {(m - 2) % 65535 + 1}"
+    if sh.out and rng.random() < 0.03:
+        # a transport failure / stall exactly when the client answers an acknowledgement (PUBREL after PUBREC ...),
+        # then the connection is re-established
+        q2 = [m for m, (q, ph) in sh.out.items() if q == 2 and ph == "sent"]
+        m = rng.choice(q2) if q2 and rng.random() < 0.8 else rng.choice(list(sh.out))
+        q, ph = sh.out[m]
+        how = rng.choice(["e", "e", "b", "a1", "a0"])
+        if q == 2 and ph == "sent":
+            sh.out[m] = (q, "rec")
+            follow = [f"rx pubrec {m}"]
+        elif q == 2:
+            follow = [f"rx pubrec {m}"]
+        else:
+            del sh.out[m]
+            follow = [f"rx puback {m}"]
+        if how == "e":
+            sh.sock = False
+            sh.connected = False
+            follow += ["reconnect ok", f"rx connack {int(rng.random() < 0.5)} 0"]
+            _after_connect(sh, True)
+            sh.connected = True
+        sh.pending = follow
+        return "send " + how
     if r < 0.012:
         return f"rx connack {rng.choice([0, 1])} {rng.choice([0, 0, 2, 5])}"      # unexpected second CONNACK
     if r < 0.22:
@@ -428,7 +489,9 @@ def _next_op(rng, sh):
         ds = []
         for _ in range(rng.randint(1, 4)):
             x = rng.random()
-            ds.append("b" if x < 0.25 else "e" if x < 0.32 else f"a{rng.choice([1, 1, 2, 3, 5, 8, 1000])}")
+            # (a0: the transport took nothing without raising - what the WebSocket wrapper reports while an earlier
+            # frame is still being flushed)
+            ds.append("b" if x < 0.25 else "e" if x < 0.32 else f"a{rng.choice([0, 1, 1, 2, 3, 5, 8, 1000])}")
         return "send " + ",".join(ds)
     if r < 0.985 and sh.cfg["manual"]:
         return f"ack {rng.choice([1, 2, 3, 7])} {rng.choice([1, 2])}"
@@ -439,7 +502,7 @@ def _next_op(rng, sh):
 
 class SessionStream:
     name = "session"
-    props = ["C01", "C02", "C03", "C10", "C12", "C13", "C16"]
+    props = ["C01", "C02", "C03", "C10", "C12", "C13", "C14", "C16"]
     keep_prefix = 1
     from streams.session_monitors import MONITORS as monitors
 
@@ -474,4 +537,22 @@ class SessionStream:
         return "on_publish" in fs or "on_message" in fs
 
 
-STREAMS = [SessionStream()]
+class ReentryStream(SessionStream):
+    """the same conversations, but the application publishes QoS 1/2 messages from inside on_publish: no Lean model
+    (callbacks that call back into the client are outside the session model); the independent monitors judge the real
+    client's behaviour (C12 window / FIFO release, C13 order, C01 exactly-once)"""
+    name = "reentry"
+    props = ["C01", "C12", "C13"]
+    has_model = False
+
+    def gen(self, rng, tier):
+        case = gen_case(rng, tier)
+        cfg = case[0] + f" cbpub={rng.choice([1, 1, 2])} cbn={rng.choice([1, 2, 3])}"
+        # small windows make the release order visible
+        if rng.random() < 0.7:
+            cfg = " ".join((f"N={rng.choice([1, 1, 2])}" if w.startswith("N=") else "ext=0" if w.startswith("ext=") else w) for w in cfg.split())
+        # (no id fast-forward here: the generator does not know the ids of the nested publishes)
+        return [cfg] + [l for l in case[1:] if not l.startswith("setmid")]
+
+
+STREAMS = [SessionStream(), ReentryStream()]
